@@ -15,6 +15,16 @@ import (
 	"github.com/bluenviron/gortsplib/v5/pkg/format/rtph264"
 )
 
+// trimAnnexBPrefixes removes the Annex-B start codes in front of a parameter set.
+// All of them: a parameter set that kept one would be stored, marshaled
+// and stripped again by the next parser, i.e. it would change at every round trip.
+func trimAnnexBPrefixes(buf []byte) []byte {
+	for bytes.HasPrefix(buf, []byte{0, 0, 0, 1}) {
+		buf = buf[4:]
+	}
+	return buf
+}
+
 // H264 is the RTP format for the H264 codec.
 // Specification: RFC6184
 type H264 struct {
@@ -40,7 +50,7 @@ func (f *H264) unmarshal(ctx *unmarshalContext) error {
 				}
 
 				// some cameras ship parameters with Annex-B prefix
-				sps = bytes.TrimPrefix(sps, []byte{0, 0, 0, 1})
+				sps = trimAnnexBPrefixes(sps)
 
 				pps, err := base64.StdEncoding.DecodeString(tmp[1])
 				if err != nil {
@@ -48,7 +58,7 @@ func (f *H264) unmarshal(ctx *unmarshalContext) error {
 				}
 
 				// some cameras ship parameters with Annex-B prefix
-				pps = bytes.TrimPrefix(pps, []byte{0, 0, 0, 1})
+				pps = trimAnnexBPrefixes(pps)
 
 				var spsp h264.SPS
 				err = spsp.Unmarshal(sps)
